@@ -34,12 +34,23 @@ for d in sorted(glob.glob(os.path.join(V, "seeded", "*"))):
         print(name, "PATCH DOES NOT APPLY", flush=True)
         continue
     try:
-        rc, o = sh("VERIF_BUDGET_S=%s ./check %s quick" % (os.environ.get("SEED_BUDGET", "25"), prop))
-        sigs = sorted(set(re.findall(r"^DETAIL (\S+):", o, re.M)))
-        res[name] = {"applies": True, "check": prop, "exit": rc, "detected": rc == 1, "signatures": sigs[:8]}
-        print(name, "exit", rc, sigs[:4], flush=True)
-        if rc == 2:
-            print(o[-1500:], flush=True)
+        # the check of the property the change was written against first; if that one is quiet, the checks of other
+        # properties that seeded.py recorded as detecting it (meta.json detected_by)
+        checks = [prop]
+        try:
+            db = json.load(open(os.path.join(d, "meta.json"))).get("detected_by", {})
+            checks += [k for k, v in db.items() if k != prop and v.get("exit") == 1]
+        except Exception:
+            pass
+        for chk in checks:
+            rc, o = sh("VERIF_BUDGET_S=%s ./check %s quick" % (os.environ.get("SEED_BUDGET", "25"), chk))
+            sigs = sorted(set(re.findall(r"^DETAIL (\S+):", o, re.M)))
+            res[name] = {"applies": True, "check": chk, "exit": rc, "detected": rc == 1, "signatures": sigs[:8]}
+            print(name, chk, "exit", rc, sigs[:4], flush=True)
+            if rc == 2:
+                print(o[-1500:], flush=True)
+            if rc == 1:
+                break
     finally:
         sh("git -C %s checkout -- ." % REPO)
 head = subprocess.run("git -C %s log --format=%%h -1" % REPO, shell=True, capture_output=True, text=True).stdout.strip()
